@@ -56,7 +56,9 @@ AsBuilt(en, cfg, i) ==
       wildNp == "numpydoc_no_types_unparsable" \in en /\ cfg.style = "numpydoc" /\ ~cfg.et /\ i.ret # NoRet
       retOnly == "gn_return_only_mangled" \in en /\ cfg.style \in {"google", "numpydoc"} /\ i.ret # NoRet /\ i.params = <<>>
       wildCode == "code_default_unparsable" \in en /\ cfg.edd /\ \E p \in ents : p.def = "code"
-      wildDot == "str_default_with_dot_truncated" \in en /\ cfg.edd /\ \E p \in ents : p.def = "str_dot"
+      \* (a QUOTED default -- any typed string -- is read to its closing quote since the repair; an untyped entry's default is written
+      \* bare, where a full stop cannot be told from the end of the sentence)
+      wildDot == "str_default_with_dot_truncated" \in en /\ cfg.edd /\ \E p \in ents : p.def = "str_dot" /\ p.typ = "absent"
       forced == "gn_return_default_forced" \in en /\ cfg.style \in {"google", "numpydoc"} /\ i.ret # NoRet
                 /\ \E k \in 1..Len(i.params) : ParsedDefault(cfg, i.params[k])
       ret0 == IF i.ret = NoRet THEN Gone ELSE AsBuiltP(en, cfg, i.ret)
